@@ -137,6 +137,17 @@ CHECKS = {
         "assumptions": ["split volumes are proper non-empty subsets of the target supervoxel; cleaves never take every supervoxel; merges name distinct existing bodies; new supervoxel ids written after allocations come from the initial palette (registered with the label counter by the first ingest) — the documented domains",
                         "server-chosen ids are compared by freshness, not by value"],
     },
+    "C03": {
+        "pkg": "c03",
+        "level": "exploration",
+        "tools": ["verif-child"],
+        "tests": [
+            T("TestC03Restart", (6, 8), (150, 16), ),
+        ],
+        "required_classes": ["op/restart-clean", "op/restart-abrupt", "op/lmmerge", "op/lmcleave", "op/lmsplitsv", "op/njpost", "op/annpost"],
+        "rule": "rapid-generated histories (<=~35 ops) against a real server process (verif-child = the DoServe initialisation on a Badger store + file log + JSON mutation log): keyvalue writes, commit/newversion/branch/merge, notes and logs, labelmap ingest/mutate/merge/cleave/split-supervoxel/renumber, annotation posts/deletes/moves with synced labelmap and labelsz, neuronjson posts (partial, replace, null) and deletes over mixed-digit body ids, roi posts, instance creation/deletion, with restart(clean = server.Shutdown) and restart(abrupt = SIGKILL while idle) pseudo-ops at generated positions (every history ends restart, 1-4 ops, restart). At each restart: deep settle, full observable snapshot (repos/info minus the mutation-id counters, DAG, notes, logs, commit flags, branch resolution, instance settings and syncs, every read endpoint of every instance at every version), snapshot again (to drop observables unstable without a restart), restart, snapshot, compare. Non-trivial: >=1 op whose effect lives in rebuilt state before a restart and >=2 restarts. Distinct = hash of the op list.",
+        "assumptions": ["only MutationID/SavedMutationID of repo info may differ (documented to jump forward); /api/server statistics are not read", "abrupt exit = SIGKILL of the idle process with the OS surviving"],
+    },
 }
 
 
